@@ -241,3 +241,7 @@ func HasCover(label string) bool {
 	}
 	return false
 }
+
+// ThreadID identifies the calling harness thread (0 = the harness's main thread). Natively
+// it is always 0.
+func ThreadID() int { return 0 }
